@@ -88,6 +88,7 @@ def run_case(case, tier):
         labels["original_rejected_by_vsg"] = 1
         return res
     labels["level_%d" % case.get("level", -1)] = 1
+    labels["source_generated_design" if str(case.get("file", "")).startswith("design:") else "source_fixture_or_replay"] = 1
     for k, v in ops.items():
         labels["op_" + k] = v
     concrete = {"text": text, "edits": edits}
